@@ -1,9 +1,9 @@
 SPECIFICATION Spec
 CONSTANTS
   MaxIdx = 4
-  MaxTerm = 2
-  MaxAppend = 2
-  MaxReady = 3
+  MaxTerm = 1
+  MaxAppend = 4
+  MaxReady = 4
   InstallSaveFirst = FALSE
   SnapshotMustBeInWal = TRUE
   MaxCrash = 1
